@@ -6,6 +6,7 @@
   (`Choice`), and over every `hash`/GGUF decoder (`Env`).
 -/
 import OllamaVerif.Proofs.Store
+import OllamaVerif.Proofs.StoreShow
 
 namespace OllamaVerif.C04
 open OllamaVerif OllamaVerif.Store
@@ -543,6 +544,85 @@ theorem reachable_no_twins_fixed (env : Env) (hv : env.v.fixResolve = true) (ops
   | cons p rest ih =>
     exact ih (fun q hq => hapi q (by simp [hq])) _
       (no_case_twins_fixed env hv st p.1 p.2 (hapi p (by simp)) h)
+
+/-! ## every listed model can be shown -/
+
+theorem getLast?_mem {α} : ∀ (l : List α) (x : α), l.getLast? = some x → x ∈ l
+  | [], _, h => by simp at h
+  | [a], x, h => by simp at h; simp [h]
+  | a :: b :: t, x, h => by
+    have : (a :: b :: t).getLast? = (b :: t).getLast? := by simp [List.getLast?_cons_cons]
+    rw [this] at h
+    exact List.mem_cons_of_mem _ (getLast?_mem (b :: t) x h)
+
+/-- **Every listed model can be shown.**  In a store that satisfies the completeness invariant and in which every
+    readable manifest has a model layer naming a decodable content (`ShowInv`), `show` of every listed model
+    answers 200. -/
+theorem listed_can_be_shown {env : Env} (hinj : HashInj env) (st : Store) (hi : Inv env st)
+    (hs : ShowInv env st) (n : Name) (hn : n ∈ listed st) : showAt env st n = "h200" := by
+  obtain ⟨hb, hni, _⟩ := hi
+  unfold listed at hn
+  rw [List.mem_filter] at hn
+  obtain ⟨hr, _⟩ := hn
+  obtain ⟨m, hm⟩ := mem_readableNames.mp hr
+  obtain ⟨hne, hdec⟩ := hs n m hm
+  have hall : ∀ l ∈ m.all, (st.blob l.digest.key).isNone = false := by
+    intro l hl
+    obtain ⟨c, hc, _⟩ := hni n m hm l hl
+    rw [hc]; rfl
+  unfold showAt
+  rw [hm]
+  simp only
+  rw [hall m.config (by simp [Manifest.all])]
+  simp only [Bool.false_eq_true, if_false]
+  have hany : (m.layers.any fun l =>
+      decide (l.media = .template ∨ l.media = .system ∨ l.media = .params ∨ l.media = .license) &&
+        (st.blob l.digest.key).isNone) = false := by
+    rw [List.any_eq_false]
+    intro l hl
+    rw [hall l (by simp [Manifest.all, hl])]
+    simp
+  rw [hany]
+  simp only [Bool.false_eq_true, if_false]
+  have hml : m.layers.filter (fun l => l.media = .model) = ml m.layers := rfl
+  rw [hml]
+  cases hlast : (ml m.layers).getLast? with
+  | none => exact absurd (List.getLast?_eq_none_iff.mp hlast) hne
+  | some l =>
+    simp only
+    have hl := getLast?_mem _ _ hlast
+    obtain ⟨c0, hc0, hg⟩ := hdec l hl
+    obtain ⟨c, hc, _, hh⟩ := hni n m hm l (by simp [Manifest.all, (mem_ml.mp hl).1])
+    rw [hc]
+    simp only
+    have : c = c0 := hinj _ _ (hh.trans hc0.symm)
+    rw [this, hg]
+    rfl
+
+/-- `ShowInv` is preserved by every operation once N1 is repaired (pinned: `N1_create_continues_witness`) -/
+theorem op_preserves_ShowInv {env : Env} (hv : env.v.fixReturn = true) (hinj : HashInj env) (st : Store)
+    (hi : Inv env st) (hs : ShowInv env st) (op : Op) (ch : Choice) : ShowInv env (step env st op ch).1 :=
+  step_showInv hv hinj hi.1 hs op ch
+
+theorem empty_ShowInv (env : Env) : ShowInv env Store.empty := by
+  intro n m h; simp [Store.empty, Store.man, aget] at h
+
+/-- **The first clause of the property, for the repaired tree, along every history.**  From any store that
+    satisfies the invariants (e.g. the empty one), after any sequence of operations — uploads, creates (any
+    overrides, auto-detected layers, any digest spelling), copies, deletes, startup prunes, and the injected
+    plant / corrupt / dashify / litter faults (files planted under a blob name must hold that content) — every
+    model that is listed has all its layers and config present with the recorded sizes and digests, and `show`
+    of it answers 200. -/
+theorem history_listed_complete_and_shown_fixed {env : Env} (hv : env.v.fixAlias = true)
+    (hk : env.v.fixKeep = true) (hr : env.v.fixReturn = true) (hinj : HashInj env) (ops : List (Op × Choice))
+    (hlit : ∀ p ∈ ops, LitterOk env p.1) (st : Store) (hi : Inv env st) (hs : ShowInv env st) :
+    Inv env (run env st ops) ∧ ∀ n ∈ listed (run env st ops), showAt env (run env st ops) n = "h200" := by
+  induction ops generalizing st with
+  | nil => exact ⟨hi, fun n hn => listed_can_be_shown hinj st hi hs n hn⟩
+  | cons p rest ih =>
+    exact ih (fun q hq => hlit q (by simp [hq])) _
+      (op_preserves_NameInv_fixed hv hk hinj st hi p.1 p.2 (hlit p (by simp)))
+      (op_preserves_ShowInv hr hinj st hi hs p.1 p.2)
 
 /-! ## witnesses of the defects the model shares with the code (Lean-checked) -/
 
